@@ -1,6 +1,8 @@
 import FlVerif.Op.Engine
 import FlVerif.Props.C12
 import FlVerif.Lemmas.CodeSessionInputs
+import FlVerif.Lemmas.CodeEngineIOLookup
+import FlVerif.Lemmas.CodeEngineIOValues
 
 /-! # C02 — Batch (vectorised) processing equals row-by-row float processing
 
@@ -76,6 +78,103 @@ theorem input_values_rows (e : EngineD Rat) (rows : List (List (X Rat))) (hne : 
       ∀ (j : Nat) (hj : j < rows.length),
         cols.map (fun col => col.getD j .nan) = (setInputs e rows[j]).inputs.map (·.value) :=
   Op.Engine.setInputValues_rows e rows hne hwf
+
+/-! ## Tie A (code → model) for the getters `input_values`, `output_values`, `values` and the look-ups of `Engine`
+
+The generated definitions `Gen.Code.Engine_*` are regenerated from the current source on every run.  A variable is the
+pair of the variable and the value it holds (`VarValue`: a float / 0-d array or a 1-D array); the NumPy calls are the
+operations of `Op/PyExtEngineIO.lean`.  Models: `Op/EngineIO.lean`. -/
+
+/-- **Tie A.**  The getter of `Engine.input_values` (`tuple(v.value for v in …)`, `np.column_stack` – or `np.array` of
+    the empty tuple): for every list of input variables with their values it raises `ValueError` exactly when the model
+    `inputValues` does (values of different numbers of rows) and otherwise returns the model's array – the values side
+    by side, the empty 1-D array without input variables. -/
+theorem code_inputValues (ins : List (InVar Rat × VarValue Rat)) :
+    match inputValues (ins.map (·.2)) with
+    | .error e => Gen.Code.Engine_input_values.run ins {} = .error e.toPy
+    | .ok a => ∃ σ, Gen.Code.Engine_input_values.run ins {} = .ok σ ∧ σ.ret = some a :=
+  Op.Engine.code_inputValues ins
+
+/-- **Tie A.**  The getter of `Engine.output_values` as repaired (F12: `np.broadcast_arrays` of `np.atleast_1d` of
+    every value, then `np.column_stack`): `ValueError` exactly when the model `outputValues` says so (two values whose
+    numbers of rows differ and are both other than 1), otherwise the model's array – every value of a single row
+    stretched to the rows of the batch. -/
+theorem code_outputValues (outs : List (OutVar Rat × VarValue Rat)) :
+    match outputValues (outs.map (·.2)) with
+    | .error e => Gen.Code.Engine_output_values.run outs {} = .error e.toPy
+    | .ok a => ∃ σ, Gen.Code.Engine_output_values.run outs {} = .ok σ ∧ σ.ret = some a :=
+  Op.Engine.code_outputValues outs
+
+/-- the case F12 is about: every output variable holds the `n` rows of the batch (`batchValues` has one row per row of
+    the batch) or, without activations, a single row: `output_values` is defined and has `n` rows, the single rows
+    repeated -/
+theorem outputValues_batch (vals : List (VarValue Rat)) (n : Nat) (hne : vals ≠ [])
+    (hc : ∀ v ∈ vals, v.rows.length = n ∨ v.rows.length = 1) (hn : ∃ v ∈ vals, v.rows.length = n) :
+    outputValues vals = .ok (ofColumns n (vals.map (fun v => stretch n v.rows))) :=
+  Op.Engine.outputValues_batch vals n hne hc hn
+
+/-- **Tie A.**  The getter of `Engine.values` (`np.hstack` of the two generated getters, input values first) = the
+    model `allValues`; in particular it raises `ValueError` for an engine that has input variables but no output
+    variables or the other way round (a 2-D array next to the empty 1-D array). -/
+theorem code_values (ins : List (InVar Rat × VarValue Rat)) (outs : List (OutVar Rat × VarValue Rat)) :
+    match allValues (ins.map (·.2)) (outs.map (·.2)) with
+    | .error e => Gen.Code.Engine_values.run ins outs {} = .error e.toPy
+    | .ok a => ∃ σ, Gen.Code.Engine_values.run ins outs {} = .ok σ ∧ σ.ret = some a :=
+  Op.Engine.code_values ins outs
+
+/-- **Tie A.**  The property `Engine.variables`: the input variables followed by the output variables. -/
+theorem code_variables {V : Type} [Inhabited V] (ins outs : List V) :
+    ∃ σ, Gen.Code.Engine_variables.run ins outs {} = .ok σ ∧ σ.ret = some (ins ++ outs) :=
+  Op.Engine.code_variables ins outs
+
+/-- **Tie A.**  `Engine.variable(name)`: the first variable of that name among the input variables followed by the
+    output variables, `ValueError` when there is none (for every type of component and every `name` attribute). -/
+theorem code_variable {V : Type} [Inhabited V] (nameOf : V → String) (ins outs : List V) (name : String) :
+    match lookupVariable nameOf ins outs name with
+    | .error e => Gen.Code.Engine_variable.run nameOf ins outs name {} = .error e.toPy
+    | .ok x => ∃ σ, Gen.Code.Engine_variable.run nameOf ins outs name {} = .ok σ ∧ σ.ret = some x :=
+  Op.Engine.code_variable nameOf ins outs name
+
+/-- **Tie A.**  `Engine.input_variable(name_or_index)` = the model `lookup`: an `int` indexes the list like Python
+    (negative from the end, `IndexError`), a name finds the first variable of that name (`ValueError`). -/
+theorem code_inputVariable {V : Type} [Inhabited V] (nameOf : V → String) (comps : List V) (k : Key) :
+    match lookup nameOf comps k with
+    | .error e => Gen.Code.Engine_input_variable.run nameOf comps k {} = .error e.toPy
+    | .ok x => ∃ σ, Gen.Code.Engine_input_variable.run nameOf comps k {} = .ok σ ∧ σ.ret = some x :=
+  Op.Engine.code_inputVariable nameOf comps k
+
+/-- **Tie A.**  `Engine.output_variable(name_or_index)` = the model `lookup`. -/
+theorem code_outputVariable {V : Type} [Inhabited V] (nameOf : V → String) (comps : List V) (k : Key) :
+    match lookup nameOf comps k with
+    | .error e => Gen.Code.Engine_output_variable.run nameOf comps k {} = .error e.toPy
+    | .ok x => ∃ σ, Gen.Code.Engine_output_variable.run nameOf comps k {} = .ok σ ∧ σ.ret = some x :=
+  Op.Engine.code_outputVariable nameOf comps k
+
+/-- **Tie A.**  `Engine.rule_block(name_or_index)` = the model `lookup`. -/
+theorem code_ruleBlock {V : Type} [Inhabited V] (nameOf : V → String) (comps : List V) (k : Key) :
+    match lookup nameOf comps k with
+    | .error e => Gen.Code.Engine_rule_block.run nameOf comps k {} = .error e.toPy
+    | .ok x => ∃ σ, Gen.Code.Engine_rule_block.run nameOf comps k {} = .ok σ ∧ σ.ret = some x :=
+  Op.Engine.code_ruleBlock nameOf comps k
+
+/-- **Tie A.**  `engine[item]` (`Engine.__getitem__`: the three generated look-ups in a list, `try: return
+    component(item) except: pass`) = the model `getItem`: the first of input variable / output variable / rule block
+    whose look-up does not raise – whatever it raises – and `ValueError` when all three raise. -/
+theorem code_engineLookup (ins : List (InVar Rat)) (outs : List (OutVar Rat)) (bls : List (String × Block Rat)) (k : Key) :
+    match getItem ins outs bls k with
+    | .error e => Gen.Code.Engine_getitem.run ins outs bls k {} = .error e.toPy
+    | .ok c => ∃ σ, Gen.Code.Engine_getitem.run ins outs bls k {} = .ok σ ∧ σ.ret = some c :=
+  Op.Engine.code_getItem ins outs bls k
+
+/-- an input variable shadows an output variable and a rule block of the same name; an index that the input variables
+    do not have falls through to the output variables -/
+example : getItem (α := ℚ) [⟨"a", true, .nan, [], .ninf, .pinf, false⟩] [] [("a", ⟨true, none, none, none, .general, []⟩)] (.name "a")
+    = .ok (.input ⟨"a", true, .nan, [], .ninf, .pinf, false⟩) := rfl
+example : getItem (α := ℚ) [] [] [("b", ⟨true, none, none, none, .general, []⟩)] (.index (-1))
+    = .ok (.block ("b", ⟨true, none, none, none, .general, []⟩)) := rfl
+example : (match getItem (α := ℚ) [] [] [] (.index 0) with | .error .value => true | _ => false) = true := rfl
+/-- `Engine.values` of an engine with input variables and no output variables raises -/
+example : (match allValues (α := ℚ) [.scalar .nan] [] with | .error .value => true | _ => false) = true := by decide
 
 /-! ## non-vacuity -/
 def exampleOut : OutVar ℚ :=
